@@ -98,6 +98,7 @@ func (c *NCase) build() (src, want string) {
 	var sb, wb strings.Builder
 	sb.WriteString("import \"fmt\"\n")
 	fmt.Fprintf(&sb, "type Level %s\n", c.Global)
+	sb.WriteString("type Rec struct {\n\tA Level\n}\n")
 	gc := nConsts[c.Global][0]
 	if c.BaseUse == 1 {
 		fmt.Fprintf(&sb, "var base Level = %s\n", gc)
@@ -110,6 +111,10 @@ func (c *NCase) build() (src, want string) {
 		ind = "\t\t"
 	}
 	fmt.Fprintf(&sb, "%stype Level %s\n", ind, c.Local)
+	// a struct type of the package and a struct type of the function under one name as well
+	fmt.Fprintf(&sb, "%stype Rec struct {\n%s\tB string\n%s\tC Level\n%s}\n", ind, ind, ind, ind)
+	fmt.Fprintf(&sb, "%slrec := &Rec{B: \"x\", C: %s}\n%slrec.C += %s\n%sfmt.Println(\"lrec\", lrec.B, lrec.C, lrec.C/2)\n", ind, nConsts[c.Local][0], ind, nConsts[c.Local][1], ind)
+	fmt.Fprintf(&wb, "lrec x %s\n", nModel(c.Local))
 	nUses(&sb, &wb, ind, "loc", c.Local, true)
 	if c.Nested {
 		sb.WriteString("\t}\n")
@@ -122,6 +127,8 @@ func (c *NCase) build() (src, want string) {
 	}
 	sb.WriteString("func after() {\n")
 	nUses(&sb, &wb, "\t", "glo", c.Global, true)
+	fmt.Fprintf(&sb, "\tgrec := &Rec{A: %s}\n\tgrec.A += %s\n\tfmt.Println(\"grec\", grec.A, grec.A/2)\n", gc, nConsts[c.Global][1])
+	fmt.Fprintf(&wb, "grec %s\n", nModel(c.Global))
 	fmt.Fprintf(&sb, "\tgp := bump(%s)\n\tfmt.Println(\"gparam\", gp, gp/2)\n", gc)
 	fmt.Fprintf(&wb, "gparam %s\n", nModel(c.Global))
 	sb.WriteString("}\n")
